@@ -226,8 +226,40 @@ type Set map[*Node]bool
 func BestTips(acc Set, invalid map[Hash]bool) ([]*Node, *big.Int) {
 	var best []*Node
 	var bw *big.Int
+	// memoised walk towards the root: linear in the number of nodes for any number of marks
+	under := map[*Node]bool{}
+	isUnder := func(n *Node) bool {
+		if len(invalid) == 0 {
+			return false
+		}
+		var path []*Node
+		res := false
+		for x := n; x != nil; x = x.Parent {
+			if v, ok := under[x]; ok {
+				res = v
+				break
+			}
+			path = append(path, x)
+			if invalid[x.Hash] {
+				res = true
+				break
+			}
+		}
+		if res {
+			// the path ends at a marked node or just below a node known to be under a mark:
+			// every node on it descends from that node
+			for i := len(path) - 1; i >= 0; i-- {
+				under[path[i]] = true
+			}
+			return true
+		}
+		for _, x := range path {
+			under[x] = false
+		}
+		return false
+	}
 	for n := range acc {
-		if UnderInvalid(n, invalid) {
+		if isUnder(n) {
 			continue
 		}
 		if bw == nil || n.Work.Cmp(bw) > 0 {
